@@ -576,7 +576,7 @@ func (h *Hist) oracle(remove, T int, io implOut) *verdict {
 					return &verdict{"C19/nonzero-offset-index-unchecked", what}
 				}
 			}
-			if n.Index == m.Index+1 && n.Offset == 0 {
+			if m.Offset != 0 && n.Index == m.Index+1 && n.Offset == 0 { // a non-first, last segment of its WAL index
 				return &verdict{"C19/missing-index-tail-undetected", what}
 			}
 		}
